@@ -666,7 +666,14 @@ pub fn c13_market_part(out: &mut Outcome, t: bool) {
 /// C07, multi-asset snapshots: reload as an operation, shadows are never reloaded
 pub fn c07_market_part(out: &mut Outcome, t: bool) {
     let c2 = MCfg { depth: if t { 5 } else { 4 }, reload_modes: vec![0, 1, 2], events: false, toggles: true, modify: true, create_place: true, offgrid: false, two_vols: false, asset_toggles: false, zero_vols: false, observe_and_book_mut: false, edge: 0 };
-    absorb(out, "Market<2,3>: reload (memory/compact/pretty) as an operation", 2, 3, c2.depth, run_market::<2, 3>(&c2), "market-reload");
+    if t {
+        absorb(out, "Market<2,3>: reload (memory/compact/pretty) as an operation", 2, 3, c2.depth, run_market::<2, 3>(&c2), "market-reload");
+    } else {
+        let cm = MCfg { reload_modes: vec![0], ..c2 };
+        absorb(out, "Market<2,3>: in-memory reload as an operation", 2, 3, 4, run_market::<2, 3>(&cm), "market-reload");
+        let cf = MCfg { depth: 3, reload_modes: vec![1, 2], ..cm };
+        absorb(out, "Market<2,3>: reload through a compact / pretty file as an operation", 2, 3, 3, run_market::<2, 3>(&cf), "market-reload");
+    }
     let c3 = MCfg { depth: if t { 4 } else { 3 }, reload_modes: vec![0, 2], events: false, toggles: true, modify: true, create_place: false, offgrid: false, two_vols: false, asset_toggles: false, zero_vols: false, observe_and_book_mut: false, edge: 0 };
     absorb(out, "Market<3,2>: reload as an operation", 3, 2, c3.depth, run_market::<3, 2>(&c3), "market-reload");
     // two-digit asset counts
